@@ -45,6 +45,7 @@ THEOREMS = [
     "c04_code_is_instance",
     "c04_any_choice",
     "c04_session_records_answer_seq_any_choice",
+    "c04_session_records_answer_any_ids",
     "c04_earlier_answers_unaffected",
     "c04_handlers_independent",
     "c04_handshake_sound_any_choice",
@@ -207,7 +208,7 @@ class Server(Suite):
         if "steps" in case:
             return ("seq", len(case["steps"]) if len(case["steps"]) <= 4 else "long", tuple(dict.fromkeys(str(s_.get("carry")) for s_ in case["steps"])),
                     case.get("read"), bool(case.get("concurrent")), case.get("handlers"), case.get("hv"), tuple(case.get("hvs") or ()), bool(case.get("store_raises")),
-                    bool(case.get("dump_raises")), tuple(sorted({str(s_.get("nested")) for s_ in case["steps"]})), any(s_.get("mutate") for s_ in case["steps"]),
+                    bool(case.get("dump_raises")), case.get("idgen"), tuple(sorted({str(s_.get("nested")) for s_ in case["steps"]})), any(s_.get("mutate") for s_ in case["steps"]),
                     case.get("backend"),
                     tuple(sorted({b for s_ in case["steps"] for b in (s_.get("between") or [])})))
         r = case["req"]
@@ -290,6 +291,21 @@ class Server(Suite):
                 for a in (good[0], bad[0], bad[4]):
                     out.append({"dump_raises": {"cls": cls, "times": times},
                                 "steps": [{"req": a, "carry": None}, {"req": a, "carry": None}, {"req": good[1], "carry": None}]})
+        # session managers whose generate_session_id() (the documented extension point) repeats an id while the session is live:
+        # a constant id, one id per k creations, a short cycle, ids that become sticky - with requests negotiating DIFFERENT versions
+        seq_reqs = good + bad[:2] + bad[4:5] + bad[9:10]
+        for idgen in V.ID_GENERATORS:
+            for a in seq_reqs:
+                for b in seq_reqs:
+                    out.append({"idgen": idgen, "steps": [{"req": a, "carry": None}, {"req": b, "carry": None}, {"req": a, "carry": None}]})
+                    if idgen in ("constant", "cycle-2"):
+                        out.append({"idgen": idgen, "steps": [{"req": a, "carry": None}, {"req": b, "carry": "prev"}, {"req": b, "carry": None},
+                                                              {"req": a, "carry": "first"}], "read": "late"})
+            for hv in ("mcpserver", "registry"):
+                out.append({"idgen": idgen, "hv": hv, "steps": [{"req": good[0], "carry": None}, {"req": good[1], "carry": None},
+                                                                {"req": bad[0], "carry": None}, {"req": good[2 % len(good)], "carry": None}]})
+            out.append({"idgen": idgen, "handlers": 2, "steps": [{"req": good[0], "h": 0}, {"req": good[1], "h": 1}, {"req": good[1], "h": 0},
+                                                                 {"req": good[0], "h": 1}]})
         # F. the session store raises (every exception class, also one without a text) for the first 1-2 initializes, then works
         for cls in V.EXC_CLASSES:
             for times in (1, 2):
@@ -496,7 +512,7 @@ class Server(Suite):
                                    | {"/same-object" for s in case["steps"] if s.get("same_object")}))
             extra += ("/%d-handlers" % case["handlers"] if case.get("handlers") else "") + ("/" + "+".join(case["hvs"]) if case.get("hvs") else "") + ("/" + case["hv"] if case.get("hv") else "") \
                 + ("/store-raises:" + case["store_raises"]["cls"] if case.get("store_raises") else "") \
-                + ("/result-builder-raises" if case.get("dump_raises") else "") + ("/nested" if any(s.get("nested") for s in case["steps"]) else "") \
+                + ("/result-builder-raises" if case.get("dump_raises") else "") + ("/ids:" + case["idgen"] if case.get("idgen") else "") + ("/nested" if any(s.get("nested") for s in case["steps"]) else "") \
                 + ("/consumer-rewrites-response" if any(s.get("mutate") for s in case["steps"]) else "") \
                 + ("/" + case["backend"] if case.get("backend") else "")
             mode = "/concurrent" if case.get("concurrent") else ("/answers-read-after-the-sequence" if case.get("read") == "late" else "")
